@@ -20,7 +20,7 @@ ASSUMPTIONS = [
     'validate_matrix is probed on the cube 0..L(i,j)+1 per cell (one above every limit), not on all integers',
 ]
 CHUNK = 40
-REQUIRED_FEATURES = {'*': ['pattern_empty_set', 'pattern_multi', 'excluded', 'open_ended', 'absent_node', 'history_filtered_first']}
+REQUIRED_FEATURES = {'*': ['pattern_empty_set', 'pattern_multi', 'excluded', 'open_ended', 'absent_node', 'history_filtered_first', 'single_pattern_empty']}
 
 D_QUICK = ['1', '0..1', '1..2', '0,2', '2', '0..*', '1..*']
 TYPES = [(d, r) for d in D_QUICK for r in (False, True)]
@@ -279,6 +279,23 @@ def run_case(case):
             res['evals'] += 1
             if int(val) != exp:
                 viol(name, dict(got=int(val), expected=exp, sizes=sizes), excl)
+
+        # the same setting WITHOUT existence patterns (all connectors always exist): counting on a cold generator must
+        # give the size of the single pattern, also if that is zero
+        if not so and not to:
+            try:
+                clear = MatrixGenSettings(src_nodes, tgt_nodes, excluded=[(src_nodes[i], tgt_nodes[j]) for i, j in excl])
+                g0 = AggregateAssignmentMatrixGenerator(clear)
+                got = (int(g0.count_all_matrices(max_by_existence=True)), int(g0.count_all_matrices(max_by_existence=False)))
+            except Exception as e:
+                got = ('EXC', f'{type(e).__name__}: {e}')
+            res['evals'] += 1
+            full = len(reference(case, excl, tuple([True]*n), tuple([True]*m)))
+            feats['single_pattern_count'] = feats.get('single_pattern_count', 0) + 1
+            if full == 0:
+                feats['single_pattern_empty'] = feats.get('single_pattern_empty', 0) + 1
+            if got != (full, full):
+                viol('count-single-pattern', dict(got=got, expected=full), excl)
 
     res['nontrivial'] = nontriv > 0
     res['features']['nontrivial_patterns'] = nontriv
